@@ -459,6 +459,30 @@ fn low_level_config(rng: &mut ChaCha8Rng, key: &impl SigningKey, typ: SignatureT
         7 if (k / 9) % 4 == 2 => {
             hashed.push(sp(notation(65_400, true))?);
         }
+        8 => {
+            // subpackets may repeat (RFC 9580 5.2.3.10: the hints it gives are hints): a second copy of
+            // kinds that usually occur once; recipients of either key version
+            hashed.push(sp(SubpacketData::SignatureCreationTime(Timestamp::now()))?);
+            let mut kf = pgp::packet::KeyFlags::default();
+            kf.set_sign(true);
+            hashed.push(sp(SubpacketData::KeyFlags(kf.clone()))?);
+            hashed.push(sp(SubpacketData::KeyFlags(kf))?);
+            hashed.push(sp(SubpacketData::ExportableCertification(true))?);
+            hashed.push(sp(SubpacketData::ExportableCertification(true))?);
+            hashed.push(sp(SubpacketData::IsPrimary(true))?);
+            hashed.push(sp(SubpacketData::IsPrimary(false))?);
+            hashed.push(sp(SubpacketData::TrustSignature(0, 0))?);
+            hashed.push(sp(SubpacketData::TrustSignature(1, 60))?);
+        }
+        0 => {
+            // intended recipients: keys of the signer's version and of the other one
+            if let Ok(fp) = pgp::types::Fingerprint::new(KeyVersion::V4, &[0xA4; 20]) {
+                hashed.push(sp(SubpacketData::IntendedRecipientFingerprint(fp))?);
+            }
+            if let Ok(fp) = pgp::types::Fingerprint::new(KeyVersion::V6, &[0xA6; 32]) {
+                hashed.push(sp(SubpacketData::IntendedRecipientFingerprint(fp))?);
+            }
+        }
         _ => {}
     }
     cfg.hashed_subpackets = hashed;
